@@ -53,7 +53,13 @@ class Scope:
 
 class Gen:
     def __init__(self, rng, profile="py", tag_calls=False, max_ops=12, nphases=None, allow_end=True,
-                 weird_names=True, persistent_arrays=True, multi_result=True):
+                 weird_names=True, persistent_arrays=True, multi_result=True, persist_tag="",
+                 readonly_state=(), advance_time=True, phase_plan=None, components=None, funcs=None):
+        self.persist_tag = persist_tag
+        self.readonly_state = list(readonly_state)
+        self.advance_time = advance_time
+        self.phase_plan = phase_plan
+        self.components = components or ["y", "state", "aux_2"]
         self.rng = rng
         self.profile = profile
         self.tag_calls = tag_calls
@@ -64,7 +70,7 @@ class Gen:
         self.persistent_arrays = persistent_arrays
         self.multi_result = multi_result
         self.site = 0
-        self.funcs = {}
+        self.funcs = funcs if funcs is not None else {}
         self.fresh_id = 0
         self.used_cond = set()
         self.used_names = set()
@@ -497,7 +503,7 @@ class Gen:
             expr = self.num_expr(sc, rng.choice([0, 1, 2]))
         time = rng.choice([["var", "<t>"], ["+", ["var", "<t>"], ["var", "<dt>"]], ["num", 0],
                            ["*", ["num", 0.5], ["var", "<dt>"]]])
-        return ["yield", expr, rng.choice(["y", "state", "aux_2"]), time, rng.choice(["final", "t0", "mid_1"]),
+        return ["yield", expr, rng.choice(self.components), time, rng.choice(["final", "t0", "mid_1"]),
                 self.s(expr)]
 
     def op_end(self, phase_names, cur):
@@ -603,13 +609,18 @@ class Gen:
     def script(self):
         rng = self.rng
         nph = self.nphases or rng.choice([1, 1, 2, 2, 3])
-        names = rng.sample(["main", "init", "primary", "bootstrap_2", "P"], nph)
-        persist = {"nums": ["<state>s", "<p>k", "<state>Y"][:rng.randint(1, 3)], "arrs": {}}
+        if self.phase_plan:
+            names = [n for n, _ in self.phase_plan]
+            nph = len(names)
+        else:
+            names = rng.sample(["main", "init", "primary", "bootstrap_2", "P"], nph)
+        tg = self.persist_tag
+        persist = {"nums": [n + tg for n in ["<state>s", "<p>k", "<state>Y"][:rng.randint(1, 3)]], "arrs": {}}
         if self.persistent_arrays:
             for a in rng.sample(["<state>v", "<p>w"], rng.randint(0, 2)):
-                persist["arrs"][a] = rng.choice([2, 3])
+                persist["arrs"][a + tg] = rng.choice([2, 3])
         state = {}
-        for n in persist["nums"]:
+        for n in persist["nums"] + self.readonly_state:
             if n.startswith("<state>"):
                 state[n[7:]] = rng.choice([1.5, -0.5, 2.0, 0.25, 3])
         for a, l in persist["arrs"].items():
@@ -617,7 +628,7 @@ class Gen:
                 state[a[7:]] = ["array", [rng.choice([1.0, 2.0, -0.5, 0.25, 1.5]) for _ in range(l)]]
         phases = []
         for pi, name in enumerate(names):
-            sc = Scope(nums=["<t>", "<dt>"] + [n for n in persist["nums"]],
+            sc = Scope(nums=["<t>", "<dt>"] + [n for n in persist["nums"]] + self.readonly_state,
                        arrs=dict(persist["arrs"]))
             body = []
             if pi == 0:
@@ -636,9 +647,10 @@ class Gen:
             self.banned = set()
             body += self.body(sc, persist, names, name, budget, 0, False)
             # advance time at the end of most phases so that t_end-bounded runs terminate
-            if rng.random() < 0.8:
+            if self.advance_time and rng.random() < 0.8:
                 body.append(["assign", "<t>", None, ["+", ["var", "<t>"], ["var", "<dt>"]], [], self.s()])
-            phases.append({"name": name, "next": rng.choice(names), "body": body})
+            nxt = dict(self.phase_plan)[name] if self.phase_plan else rng.choice(names)
+            phases.append({"name": name, "next": nxt, "body": body})
         # only state components the program mentions are handed to set_up
         used = set()
         for ph in phases:
